@@ -187,8 +187,8 @@ Proof. intros so sa c s n H. apply nstep_fault. by apply bad_count_faults. Qed.
 Print Assumptions C08_bad_counts_rejected.
 
 (** Non-vacuity: 12 consecutive epochs with a distinct legacy candidate per
-    epoch, shrink 10 -> 4 (ring index 2 < 4: "K2"), 3 epochs, shrink 4 -> 2
-    (ring index >= 2: "K1"), enlarge to 6, 2 epochs; a resize that would have
+    epoch, shrink 10 -> 4 (ring index 2 < 4: "K2"), 1 epoch, shrink 4 -> 2
+    (ring index 3 >= 2: "K1"), enlarge to 6, 2 epochs; a resize that would have
     to move a slot emptied by the enlargement is rejected (Put(nil)). *)
 Definition exK (i : N) : bytes := 2%N :: repeat i 32.
 Definition exInfo (i tag : N) : bytes := [tag; 0%N] ++ exK i ++ [9%N].
@@ -201,21 +201,23 @@ Definition ex_tick (e : Z) : list (nctx * nop) :=
     (al e, NewEpoch e) ].
 Definition ex_ticks (a b : Z) : list (nctx * nop) := flat_map ex_tick (zrange a (b + 1)).
 Definition ex_hist : list (nctx * nop) :=
-  ex_ticks 1 12 ++ [(al 0, UpdateSnapshotCount 4)] ++ ex_ticks 13 15 ++
+  ex_ticks 1 12 ++ [(al 0, UpdateSnapshotCount 4)] ++ ex_ticks 13 13 ++
   [(al 0, UpdateSnapshotCount 0); (al 0, UpdateSnapshotCount 2); (al 0, UpdateSnapshotCount 6)] ++
-  ex_ticks 16 17.
+  ex_ticks 14 15.
 Definition snap_tags (s : nstate) (d : Z) : val :=
   match r_snapshot s d with Halt l => VList (map (fun n => VBytes (take 1 (blob n))) l) | Fault => VFault end.
 Example C08_nonvacuous :
   consecutive exOk exAcc (ninit []) ex_hist = true /\
   let '(s, h) := grun exOk exAcc [] ex_hist in
-  (epoch s, count s, cur s, win h, win2 h) = (17, 6, 1, 4, 4) /\
+  (epoch s, count s, cur s, win h, win2 h) = (15, 6, 3, 4, 4) /\
   map (snap_tags s) [-1; 0; 1; 2; 3; 4; 5; 6]
-  = [VFault; VList [VBytes [17%N]]; VList [VBytes [16%N]]; VList [VBytes [15%N]]; VList [VBytes [14%N]];
+  = [VFault; VList [VBytes [15%N]]; VList [VBytes [14%N]]; VList [VBytes [13%N]]; VList [VBytes [12%N]];
      VList []; VList []; VFault] /\
-  map (fun e => map n2addrs (r_list_nodes s e)) [12; 13; 14; 15; 16; 17; 18]
-  = [[]; []; [[[14%N]]]; [[[15%N]]]; [[[16%N]]]; [[[17%N]]]; []] /\
-  (* the window is not full: shrinking to 5 must move the empty slot of age 4 *)
-  nstep exOk exAcc s (al 0, UpdateSnapshotCount 5) = (s, false, []) /\
-  fst (nstep exOk exAcc s (al 0, UpdateSnapshotCount 3)) <> (s, false).
-Proof. vm_compute. repeat split; congruence. Qed.
+  map (fun e => map n2addrs (r_list_nodes s e)) [10; 11; 12; 13; 14; 15; 16]
+  = [[]; []; [[[12%N]]]; [[[13%N]]]; [[[14%N]]]; [[[15%N]]]; []] /\
+  (* the window (4) is not full (count 6): shrinking to 5 or enlarging would
+     have to move the empty slots of age 4, 5 and are rejected (Put(nil));
+     shrinking to 3 is fine; 6 (unchanged), 0, 255 are rejected *)
+  map (fun n => snd (fst (nstep exOk exAcc s (al 0, UpdateSnapshotCount n)))) [5; 3; 7; 6; 0; 255; 254]
+  = [false; true; false; false; false; false; false].
+Proof. vm_compute. repeat split; reflexivity. Qed.
